@@ -121,14 +121,44 @@ Qed.
 Lemma fresh_not_reached st x : wf_obj st x -> ~ In (nc st) (reach_c x).
 Proof. intros [_ Hc] H. specialize (Hc _ H). lia. Qed.
 
+(* the copy made by the accessors that may rebind a parameter: fresh _buffers AND fresh _parameters containers *)
+Lemma shallow_copy_own_module st o x :
+  ismod o = true -> wf_obj st x ->
+  let '(st1, c) := shallow_copy_own st o in
+  snap st1 x = snap st x /\ wf_obj st1 x /\ ~ In (bc c) (reach_c x) /\ ~ In (pc c) (reach_c x) /\ ismod c = true.
+Proof.
+  intros Ho Hx. unfold shallow_copy_own. pose proof (shallow_copy_module st o x Ho Hx) as H.
+  destruct (shallow_copy st o) as [st1 c]. destruct H as (Hs & Hw & Hb & Hp & Hm & Hsl & Hnc & Hnt & Htv & Hcv).
+  rewrite Hm. cbn [alloc_cont fst snd bc pc ismod].
+  change (mkSt (tv st1) (upd (cv st1) (nc st1) (cv st1 (pc c))) (nt st1) (S (nc st1))) with (fst (alloc_cont st1 (cv st1 (pc c)))).
+  repeat split.
+  - rewrite snap_alloc_cont by exact Hw. exact Hs.
+  - apply (wf_alloc_cont st1 _ x Hw).
+  - apply (wf_alloc_cont st1 _ x Hw).
+  - rewrite Hb. apply fresh_not_reached. exact Hx.
+  - apply fresh_not_reached. exact Hw.
+Qed.
+
+(* Module.__setattr__ on an object whose two containers no other object reaches *)
+Lemma module_setattr_fresh st c n v x st' c' :
+  ~ In (bc c) (reach_c x) -> ~ In (pc c) (reach_c x) ->
+  module_setattr st c n v = SOk st' c' -> snap st' x = snap st x /\ bc c' = bc c /\ pc c' = pc c.
+Proof.
+  intros Hb Hp. unfold module_setattr. destruct v as [t| |t].
+  - intros E; injection E as <- <-. cbn [bc pc]. rewrite snap_set_cont by exact Hp. rewrite snap_set_cont by exact Hb. auto.
+  - destruct (has_entry (cv st (pc c)) n); [|destruct (has_entry (cv st (bc c)) n)]; intros E; injection E as <- <-;
+      rewrite ?snap_set_cont by assumption; auto.
+  - destruct (has_entry (cv st (pc c)) n); [discriminate|]. destruct (has_entry (cv st (bc c)) n); intros E; injection E as <- <-;
+      rewrite ?snap_set_cont by assumption; auto.
+Qed.
+
 (* SpatialTransform.grid(g), condition(args): every existing transform (the receiver included) is unchanged *)
 Theorem acc_grid_preserves st o g x :
   ismod o = true -> wf_obj st x -> snap (fst (acc_grid st o g)) x = snap st x.
 Proof.
-  intros Ho Hx. unfold acc_grid. pose proof (shallow_copy_module st o x Ho Hx) as H.
-  destruct (shallow_copy st o) as [st1 c]. destruct H as (Hs & Hw & Hb & _). cbn [fst].
-  unfold clear_buffers. rewrite snap_set_cont; [exact Hs|]. rewrite Hb.
-  intros Hin. destruct Hx as [_ Hc]. specialize (Hc _ Hin). lia.
+  intros Ho Hx. unfold acc_grid. pose proof (shallow_copy_own_module st o x Ho Hx) as H.
+  destruct (shallow_copy_own st o) as [st1 c]. destruct H as (Hs & Hw & Hb & _). cbn [fst].
+  unfold clear_buffers. rewrite snap_set_cont; [exact Hs|exact Hb].
 Qed.
 Theorem acc_condition_preserves st o a x :
   ismod o = true -> wf_obj st x -> snap (fst (acc_condition st o a)) x = snap st x.
@@ -139,58 +169,53 @@ Proof.
   intros Hin. destruct Hx as [_ Hc]. specialize (Hc _ Hin). lia.
 Qed.
 
-(* ParametricTransform.data(arg), unlink(): unchanged receiver PROVIDED the parameters are not held in _parameters
-   (tensor / buffer held parameters).  For Parameter-held parameters see the _refuted witnesses. *)
-Theorem acc_data_preserves_partial st o v x st' c' :
-  ismod o = true -> wf_obj st o -> wf_obj st x ->
-  has_entry (cv st (pc o)) n_params = false ->
-  acc_data st o v = SOk st' c' -> snap st' x = snap st x.
+(* ParametricTransform.data(arg), unlink(): every existing transform (the receiver included) is unchanged, however the
+   parameters are held -- the copy has its own _parameters dict *)
+Theorem acc_data_preserves st o v x st' c' :
+  ismod o = true -> wf_obj st x -> acc_data st o v = SOk st' c' -> snap st' x = snap st x.
 Proof.
-  intros Ho Hwo Hx Hnp. unfold acc_data. pose proof (shallow_copy_module st o x Ho Hx) as H.
-  destruct (shallow_copy st o) as [st1 c]. destruct H as (Hs & Hw & Hb & Hp & Hm & Hsl & Hnc & Hnt & Htv & Hcv).
+  intros Ho Hx. unfold acc_data. pose proof (shallow_copy_own_module st o x Ho Hx) as H.
+  destruct (shallow_copy_own st o) as [st1 c]. destruct H as (Hs & Hw & Hb & Hp & Hm).
   cbn [alloc_tensor]. set (st2 := mkSt (upd (tv st1) (nt st1) v) (cv st1) (S (nt st1)) (nc st1)).
   assert (Hs2 : snap st2 x = snap st x).
   { rewrite <- Hs. apply (snap_alloc_tensor st1 v x Hw). }
-  assert (Hpc : cv st2 (pc c) = cv st (pc o)).
-  { cbn. rewrite Hp. apply Hcv. destruct Hwo as [_ Hc]. specialize (Hc (pc o)). unfold reach_c in Hc. rewrite Ho in Hc.
-    specialize (Hc (or_introl eq_refl)). lia. }
-  rewrite Hpc. unfold has_entry in Hnp. destruct (get_entry (cv st (pc o)) n_params) eqn:Eg; [discriminate|].
-  unfold module_setattr. rewrite Hpc. unfold has_entry. rewrite Eg.
-  assert (Hfresh : ~ In (bc c) (reach_c x)) by (rewrite Hb; apply fresh_not_reached; exact Hx).
-  destruct (get_entry (cv st2 (bc c)) n_params) eqn:Eb.
-  - intros E; injection E as <- <-. unfold clear_buffers. cbn [bc].
-    rewrite snap_set_cont by exact Hfresh. rewrite snap_set_cont by exact Hfresh. exact Hs2.
-  - intros E; injection E as <- <-. unfold clear_buffers. cbn [bc set_slot].
-    rewrite snap_set_cont by exact Hfresh. exact Hs2.
+  match goal with |- context [module_setattr st2 c n_params ?val] => destruct (module_setattr st2 c n_params val) as [st3 c3|] eqn:E end;
+    [|discriminate].
+  destruct (module_setattr_fresh _ _ _ _ x _ _ Hb Hp E) as (H3 & Hb3 & _).
+  intros E'; injection E' as <- <-. unfold clear_buffers. rewrite snap_set_cont by (rewrite Hb3; exact Hb). now rewrite H3.
 Qed.
 
-Theorem acc_unlink_preserves_partial st o x st' c' :
-  ismod o = true -> wf_obj st o -> wf_obj st x ->
-  has_entry (cv st (pc o)) n_params = false ->
-  acc_unlink st o = SOk st' c' -> snap st' x = snap st x.
+Theorem acc_unlink_preserves st o x st' c' :
+  ismod o = true -> wf_obj st x -> acc_unlink st o = SOk st' c' -> snap st' x = snap st x.
 Proof.
-  intros Ho Hwo Hx Hnp. unfold acc_unlink. pose proof (shallow_copy_module st o x Ho Hx) as H.
-  destruct (shallow_copy st o) as [st1 c]. destruct H as (Hs & Hw & Hb & Hp & Hm & Hsl & Hnc & Hnt & Htv & Hcv).
-  assert (Hpc : cv st1 (pc c) = cv st (pc o)).
-  { rewrite Hp. apply Hcv. destruct Hwo as [_ Hc]. specialize (Hc (pc o)). unfold reach_c in Hc. rewrite Ho in Hc.
-    specialize (Hc (or_introl eq_refl)). lia. }
-  unfold module_setattr. rewrite Hpc, Hnp.
-  assert (Hfresh : ~ In (bc c) (reach_c x)) by (rewrite Hb; apply fresh_not_reached; exact Hx).
-  destruct (has_entry (cv st1 (bc c)) n_params).
-  - intros E; injection E as <- <-. cbn [bc]. rewrite snap_set_cont by exact Hfresh. rewrite snap_set_cont by exact Hfresh. exact Hs.
-  - intros E; injection E as <- <-. cbn [bc set_slot]. rewrite snap_set_cont by exact Hfresh. exact Hs.
+  intros Ho Hx. unfold acc_unlink. pose proof (shallow_copy_own_module st o x Ho Hx) as H.
+  destruct (shallow_copy_own st o) as [st1 c]. destruct H as (Hs & Hw & Hb & Hp & Hm).
+  destruct (module_setattr st1 c n_params VNoneV) as [st2 c2|] eqn:E; [|discriminate].
+  destruct (module_setattr_fresh _ _ _ _ x _ _ Hb Hp E) as (H2 & Hb2 & _).
+  intros E'; injection E' as <- <-. rewrite snap_set_cont by (rewrite Hb2; exact Hb). now rewrite H2.
 Qed.
 
-(* ---- refutations: Parameter-held parameters live in the _parameters dict, which __copy__ shares ---- *)
+(* ---- the former counterexamples: Parameter-held parameters live in the _parameters dict, which __copy__ shares; the
+   accessors now give the copy its own dict ---- *)
 Definition st0 : store := mkSt (fun t => 10 + t) (fun c => match c with 0 => [(n_params, RT 0)] | 1 => [(n_u, RT 1)] | _ => [] end) 2 2.
 Definition tr0 : obj := mkObj [(n_grid, RV 7); (n_args, RV 0)] 0 1 true.        (* Translation(grid, params=True) after update() *)
 
-(* t.data(arg) / t.unlink() with a Parameter: the receiver's own parameter entry is replaced *)
-Lemma acc_data_param_refuted :
-  match acc_data st0 tr0 5 with SOk st' _ => snap_eqb (snap st' tr0) (snap st0 tr0) | SErr => true end = false.
+(* t.data(arg) / t.unlink() with a Parameter: the receiver keeps its parameter, the copy has the new one / None *)
+Lemma acc_data_param_fixed :
+  match acc_data st0 tr0 5 with
+  | SOk st' c => snap_eqb (snap st' tr0) (snap st0 tr0) && negb (snap_eqb (snap st' c) (snap st' tr0))
+  | SErr => false end = true.
 Proof. vm_compute. reflexivity. Qed.
-Lemma acc_unlink_param_refuted :
-  match acc_unlink st0 tr0 with SOk st' _ => snap_eqb (snap st' tr0) (snap st0 tr0) | SErr => true end = false.
+Lemma acc_unlink_param_fixed :
+  match acc_unlink st0 tr0 with
+  | SOk st' c => snap_eqb (snap st' tr0) (snap st0 tr0) && negb (snap_eqb (snap st' c) (snap st' tr0))
+  | SErr => false end = true.
+Proof. vm_compute. reflexivity. Qed.
+(* a plain shallow copy followed by the in-place setter (what inverse() relies on) still shares the parameter container *)
+Lemma shallow_copy_shares_parameters :
+  let '(st1, c) := shallow_copy st0 tr0 in
+  match module_setattr (fst (alloc_tensor st1 5)) c n_params (VParam (snd (alloc_tensor st1 5))) with
+  | SOk st' _ => snap_eqb (snap st' tr0) (snap st0 tr0) | SErr => true end = false.
 Proof. vm_compute. reflexivity. Qed.
 (* the same accessors on buffer-held parameters leave the receiver alone (non-vacuity of the _partial theorems) *)
 Definition st1 : store := mkSt (fun t => 10 + t) (fun c => match c with 1 => [(n_params, RT 0); (n_u, RT 1)] | _ => [] end) 2 2.
